@@ -447,6 +447,29 @@ structure InvHalf (s : Tun) : Prop where
   upEOF : s.upEOF = true → s.c2uDone = true
   clEOF : s.clEOF = true → s.u2cDone = true
 
+/-- Mode `clientHalf` (the repaired code): the teardown needs the upstream→client direction finished; the
+upstream sees EOF when the client→upstream direction has ended (`CloseWrite`) or through the teardown; the client
+sees EOF only through the teardown. -/
+structure InvCH (s : Tun) : Prop where
+  torn : s.torn = true → s.u2cDone = true
+  upEOF : s.upEOF = true → s.c2uDone = true ∨ s.torn = true
+  clEOF : s.clEOF = true → s.torn = true
+
+theorem step_invCH (s : Tun) (e : Ev) (h : InvCH s) : InvCH (step .clientHalf s e) := by
+  obtain ⟨a, b, c⟩ := h
+  cases e <;> simp only [step] <;> (try split) <;>
+    first
+    | exact ⟨a, b, c⟩
+    | (constructor <;> simp_all)
+
+theorem run_invCH : ∀ (h : List Ev) (s : Tun), InvCH s → InvCH (run .clientHalf s h) := by
+  intro h
+  induction h with
+  | nil => intro s hs; exact hs
+  | cons e t ih => intro s hs; exact ih _ (step_invCH s e hs)
+
+theorem invCH_init (pre : Bytes) : InvCH (Tun.init pre) := by constructor <;> simp [Tun.init]
+
 theorem step_invFirst (s : Tun) (e : Ev) (h : InvFirst s) : InvFirst (step .firstEnds s e) := by
   obtain ⟨a, b, c⟩ := h
   cases e <;> simp only [step] <;> (try split) <;>
